@@ -61,7 +61,17 @@ func LoadDriver(repo, specDir string) (*Driver, error) {
 		if tn, ok := d.pkg.Members[n].(*ssa.Type); ok {
 			if _, isStruct := tn.Type().Underlying().(*types.Struct); isStruct {
 				d.w.dataOf(tn.Type())
+				// deterministic dynamic-type ids for *T and T
+				d.w.TypeID(types.NewPointer(tn.Type()))
+				d.w.TypeID(tn.Type())
 			}
+		}
+	}
+	for _, extra := range []string{"*bytes.Buffer", "*errors.errorString", "*net.TCPConn", "*net.UDPConn", "int"} {
+		if _, ok := d.w.typeIDs[extra]; !ok {
+			id := len(d.w.typeIDs) + 1
+			d.w.typeIDs[extra] = id
+			d.w.typeNames = append(d.w.typeNames, extra)
 		}
 	}
 	// all functions incl. methods and closures
@@ -270,6 +280,7 @@ func (d *Driver) GenVC(key string, safety bool, lockCheck bool) (fvc *FuncVC) {
 			vc.assume(ex.trBool(rq.Expr, env))
 		}
 	}
+	d.captureObligations(ex, fn, key)
 	o := vc.oblige("vacuity", key+"/vacuity:requires-satisfiable", "true", "false", "preconditions and invariants are jointly satisfiable", "", nil)
 	o.Expect = "sat"
 	results, out, retReach := ex.execFunction(fn, args, binds, st, "true", true, c)
@@ -384,4 +395,49 @@ func (d *Driver) QueryText(vc *VC, o *Obl) string {
 	pre := d.preludeFor(bs)
 	pre = strings.Replace(pre, ";@@DATA@@\n", d.w.DataDecls(), 1)
 	return "(set-option :produce-models true)\n(set-logic ALL)\n" + pre + "; ---- VC for " + o.Name + "\n" + bs
+}
+
+// captureObligations: a closure created inside a loop must not capture (by reference) a variable that
+// lives across iterations and is reassigned inside the loop - otherwise closures created in different
+// iterations share, and later observe, each other's values. One obligation per captured variable.
+func (d *Driver) captureObligations(ex *Exec, fn *ssa.Function, key string) {
+	loops := computeLoops(fn)
+	for _, b := range fn.Blocks {
+		for _, ins := range b.Instrs {
+			mc, ok := ins.(*ssa.MakeClosure)
+			if !ok {
+				continue
+			}
+			for _, bind := range mc.Bindings {
+				al, ok := bind.(*ssa.Alloc)
+				if !ok {
+					continue
+				}
+				goal := "true"
+				why := ""
+				for _, li := range loops {
+					if !li.body[b.Index] {
+						continue
+					}
+					if al.Block() != nil && li.body[al.Block().Index] {
+						continue // a fresh variable per iteration
+					}
+					// allocated outside the loop: is it assigned inside the loop?
+					for _, bb := range fn.Blocks {
+						if !li.body[bb.Index] {
+							continue
+						}
+						for _, i2 := range bb.Instrs {
+							if st, ok := i2.(*ssa.Store); ok && st.Addr == al {
+								goal = "false"
+								why = " (assigned at " + ex.posOf(st.Pos()) + " inside the loop that creates the closure)"
+							}
+						}
+					}
+				}
+				name := ex.oblName(key + "/capture-stable@" + al.Comment + ":" + mc.Fn.Name())
+				ex.vc.oblige("capture-stable", name, "true", goal, "variable "+al.Comment+" captured by closure "+mc.Fn.Name()+" is not shared across loop iterations"+why, ex.posOf(mc.Pos()), nil)
+			}
+		}
+	}
 }
